@@ -41,6 +41,11 @@ CHECKS = {
         note="Trusted: Lean kernel + [propext, Classical.choice, Quot.sound]; hand-written models tied by correspondence; the hook commit; sanitizers as the oracle for memory safety (finite exploration, labelled as such).",
         technique="Lean 4 bound theorems on the pass-engine model + hook-based loop counter compared with the model + sanitizer-instrumented execution of synthesised, boundary and mutated fonts",
         ref="§6 C02"),
+    "C01": dict(
+        text="Proof (Lean 4 kernel), partial: totality / in-bounds theorems for ALL byte strings for the loader components that are modelled - the sfnt container as a file face reads it (file_face_total: constructor, directory search of at most 40 entries and the bounds test of get_table_fn never read outside the file, and a table that is handed out lies inside it), Pass::readRanges (pass_ranges_total: the glyph->column map is built without an access outside m_cols or the range records, accepted maps hold only valid columns; a range ending at the glyph count itself is refused), cmap lookups after CheckCmapSubtable4/12 (C13), compressed tables and the LZ4 decoder (C14). The loader as a whole is NOT modelled: 'either NULL or a usable face, no out-of-bounds access, no undefined behaviour, no hang, no leak, tables released' is decided on the implementation under ASan/UBSan/LSan over byte-mutated shipped fonts (incl. the compressed one), structurally hostile Sill/Feat/Glat/Gloc/name tables, synthesised fonts the loader must refuse, all face-option values, both table sources, every face/feature query and destruction.",
+        note="Trusted: Lean kernel + [propext, Classical.choice, Quot.sound]; hand-written Model/Loader.lean tied by correspondence; sanitizers as the oracle for the un-modelled part (finite exploration, labelled as such).",
+        technique="Lean 4 totality theorems for modelled loader components + differential execution + sanitizer-instrumented loading of mutated and structurally hostile fonts through both table sources",
+        ref="§6 C01"),
     "C11": dict(
         text="Proof (Lean 4 kernel), for all code-unit strings in all three encodings: gr_count_unicode_characters' model never faults on [begin,end) and equals the Unicode specification's scan (Table 3-7/D91/D90) - exact count without error on well-formed text, error reported on ill-formed text, error pointer inside the buffer, count <= well-formed characters before the first ill-formed sequence; NUL-terminated branch never reads past a NUL; get/put inverse on all scalar values; ill-formed sequences swallow only trailing units (resync); the three encodings of a scalar list read back as the same scalars. Decoder tables, limits and toolong thresholds are REGENERATED from UtfCodec.h/.cpp. Model tied to the code by differential execution under ASan: every UTF-8 string of <=3 bytes (exhaustive, 16.8M), boundary-structured longer strings, UTF-16/32 boundary products, gr_make_seg char-infos.",
         note="Trusted: Lean kernel + [propext, Classical.choice, Quot.sound]; extractor for Gen.Utf; hand-written Model/Utf.lean tied by finite differential runs; Spec/Utf.lean validated against Python's strict codecs through the predicate on implementation outputs. Whole-segment equality across encodings is reduced to equality of the decoded scalar list.",
